@@ -51,6 +51,7 @@ type c13Spec struct {
 	barrier bool   // AES-GCM barrier
 	lview   bool   // logical.NewStorageView(prefix) + SubView
 	bview   bool   // barrier.NewView(prefix) + SubView
+	maxVal  int    // in-memory bases: max_value_size of the backend (0 = unlimited); drawn per case, see c13RunStack
 }
 
 type c13Stack struct {
@@ -90,10 +91,15 @@ func c13Build(spec c13Spec, dir string) (*c13Stack, error) {
 	var base physical.Backend
 	var err error
 	switch spec.base {
-	case "inmem":
-		base, err = inmem.NewInmem(nil, nl)
-	case "inmem-notx":
-		base, err = inmem.NewInmem(map[string]string{"disable_transactions": "true"}, nl)
+	case "inmem", "inmem-notx":
+		conf := map[string]string{}
+		if spec.base == "inmem-notx" {
+			conf["disable_transactions"] = "true"
+		}
+		if spec.maxVal > 0 {
+			conf["max_value_size"] = fmt.Sprint(spec.maxVal)
+		}
+		base, err = inmem.NewInmem(conf, nl)
 	case "file":
 		base, err = file.NewFileBackend(map[string]string{"path": dir}, nil)
 	case "fsm":
@@ -429,6 +435,57 @@ type c13Run struct {
 	deleted []string // keys removed lately (delete, committed transactional delete, clear): must stay gone for point reads
 	txnCommits, txnRollbacks, txnDelCached int64
 	txnRefused, txnRefusedDouble           int64
+	dead                                   context.Context // a context that is already cancelled
+	failedWrites                           int64
+	txnCommitAfterFailedWrite              int64
+}
+
+// ---- failing writes. A Put/Delete may be refused at that call: its context is already cancelled (every layer that looks
+// at the context documents that it then returns the context's error; layers that do not look at it carry the write out),
+// or the value exceeds the max_value_size the in-memory backend was configured with. The store stays one key/value
+// store: "the last value put" is the last put that was accepted, so an operation that returned an error changes
+// nothing - at once, later, inside a transaction, or when that transaction is committed afterwards with a live context
+// - and one that returned nil took effect although its context was cancelled.
+
+const c13MaxValueSize = 12 // the keys seeded outside a view hold up to 10 bytes
+
+// opCtx draws the context of one write: cancelled once in oneIn.
+func (r *c13Run) opCtx(rt *rapid.T, oneIn int) (context.Context, bool) {
+	if rapid.IntRange(0, oneIn-1).Draw(rt, "ctxCancelled") == 0 {
+		return r.dead, true
+	}
+	return r.ctx, false
+}
+
+func c13GenVal(rt *rapid.T, maxLen int) []byte {
+	switch rapid.IntRange(0, 11).Draw(rt, "valKind") {
+	case 0:
+		return []byte{}
+	case 1: // around and over the configured max_value_size
+		return rapid.SliceOfN(rapid.Byte(), c13MaxValueSize-1, c13MaxValueSize+4).Draw(rt, "bigVal")
+	}
+	return rapid.SliceOfN(rapid.Byte(), 1, maxLen).Draw(rt, "val")
+}
+
+// writeOutcome is errOutcome for Put/Delete with the two refusals above; true = refused, leave the model alone.
+func (r *c13Run) writeOutcome(op, key string, val []byte, cancelled bool, err error) bool {
+	if op == "put" && r.st.spec.maxVal > 0 && len(val) > r.st.spec.maxVal {
+		r.feats["put-over-max-value-size"] = true
+		if err == nil {
+			r.viol("missing-rejection-put-too-large", "put %s of %d bytes succeeded on a backend with max_value_size=%d", sxQ(key), len(val), r.st.spec.maxVal)
+		}
+		r.failedWrites++
+		return true
+	}
+	if cancelled && err != nil {
+		r.feats["write-refused-cancelled-context"] = true
+		r.failedWrites++
+		return true
+	}
+	if cancelled {
+		r.feats["write-accepted-cancelled-context"] = true
+	}
+	return r.errOutcome(op, key, err)
 }
 
 func c13Remember(l []string, k string, max int) []string {
@@ -522,16 +579,12 @@ func (r *c13Run) watch(what string, f func()) {
 
 func (r *c13Run) put(rt *rapid.T) {
 	k := r.st.genKey(rt, r.keys())
-	var v []byte
-	if rapid.IntRange(0, 9).Draw(rt, "emptyVal") == 0 {
-		v = []byte{}
-	} else {
-		v = rapid.SliceOfN(rapid.Byte(), 1, 6).Draw(rt, "val")
-	}
+	v := c13GenVal(rt, 6)
+	ctx, cancelled := r.opCtx(rt, 8)
 	var err error
-	r.watch("put", func() { err = r.st.top.Put(r.ctx, k, v) })
-	r.log("put %s=%x -> %v", sxQ(k), v, err)
-	if r.errOutcome("put", k, err) {
+	r.watch("put", func() { err = r.st.top.Put(ctx, k, v) })
+	r.log("put %s=%x cancelled=%v -> %v", sxQ(k), v, cancelled, err)
+	if r.writeOutcome("put", k, v, cancelled, err) {
 		return
 	}
 	r.m[k] = append([]byte{}, v...)
@@ -574,10 +627,11 @@ func (r *c13Run) get(rt *rapid.T) {
 
 func (r *c13Run) del(rt *rapid.T) {
 	k := r.st.genKey(rt, r.keys())
+	ctx, cancelled := r.opCtx(rt, 8)
 	var err error
-	r.watch("delete", func() { err = r.st.top.Delete(r.ctx, k) })
-	r.log("delete %s -> %v", sxQ(k), err)
-	if r.errOutcome("delete", k, err) {
+	r.watch("delete", func() { err = r.st.top.Delete(ctx, k) })
+	r.log("delete %s cancelled=%v -> %v", sxQ(k), cancelled, err)
+	if r.writeOutcome("delete", k, nil, cancelled, err) {
 		return
 	}
 	delete(r.m, k)
@@ -636,6 +690,9 @@ func (r *c13Run) listPage(rt *rapid.T) {
 	var err error
 	r.watch("listpage", func() { got, err = r.st.top.ListPage(r.ctx, p, after, limit) })
 	r.log("listpage %s after=%s limit=%d -> %s %v", sxQ(p), sxQ(after), limit, sxQL(got), err)
+	if r.afterRefused(p, after, err) {
+		return
+	}
 	if r.errOutcome("list", p, err) {
 		return
 	}
@@ -658,6 +715,20 @@ func (r *c13Run) listPage(rt *rapid.T) {
 		}
 		r.viol(sig, "ListPage(%s, after=%s, limit=%d) = %s, model %s (keys %s)", sxQ(p), sxQ(after), limit, sxQL(got), sxQL(want), sxQL(r.visible()))
 	}
+}
+
+// afterRefused: the cursor of a paginated listing is an arbitrary string that entries are compared with - it need not
+// exist, it is not a path and no layer documents a rejection of it. A ListPage that fails although its prefix is
+// acceptable and the same prefix with an empty cursor would be served has refused the cursor.
+func (r *c13Run) afterRefused(p, after string, err error) bool {
+	if err == nil || after == "" {
+		return false
+	}
+	if _, may := r.st.c13Verdict("list", p); may {
+		return false
+	}
+	r.viol("listpage-refuses-after", "ListPage(%s, after=%s) failed though no layer documents a rejection of the prefix, and any string is a valid cursor: %v", sxQ(p), sxQ(after), err)
+	return true
 }
 
 func (r *c13Run) hasEmptyEntry() bool {
@@ -858,14 +929,19 @@ func (r *c13Run) transaction(rt *rapid.T) {
 	r.log("txn begin ro=%v", ro)
 	delCached := 0
 	var readKeys []string
+	var failed []string // keys of writes the transaction refused (cancelled context, value too large, documented key rejections)
 	for i, n := 0, rapid.IntRange(1, 4).Draw(rt, "txnOps"); i < n; i++ {
 		switch rapid.SampledFrom([]string{"put", "delete", "delete", "get", "list"}).Draw(rt, "txnOp") {
 		case "put":
 			k := genKey()
-			v := rapid.SliceOfN(rapid.Byte(), 1, 4).Draw(rt, "txnVal")
+			v := c13GenVal(rt, 4)
+			ctx, cancelled := r.ctx, false
+			if !ro {
+				ctx, cancelled = r.opCtx(rt, 4)
+			}
 			var err error
-			r.watch("txn put", func() { err = h.kv.Put(r.ctx, k, v) })
-			r.log("txn put %s=%x -> %v", sxQ(k), v, err)
+			r.watch("txn put", func() { err = h.kv.Put(ctx, k, v) })
+			r.log("txn put %s=%x cancelled=%v -> %v", sxQ(k), v, cancelled, err)
 			if ro {
 				if !errors.Is(err, physical.ErrTransactionReadOnly) {
 					if _, may := r.st.c13Verdict("put", k); !may || err == nil {
@@ -874,7 +950,10 @@ func (r *c13Run) transaction(rt *rapid.T) {
 				}
 				continue
 			}
-			if r.errOutcome("put", k, err) {
+			if r.writeOutcome("put", k, v, cancelled, err) {
+				if err != nil {
+					failed = append(failed, k)
+				}
 				continue
 			}
 			overlay[k] = wr{val: v}
@@ -882,9 +961,13 @@ func (r *c13Run) transaction(rt *rapid.T) {
 			r.noteKey(k)
 		case "delete":
 			k := genKey()
+			ctx, cancelled := r.ctx, false
+			if !ro {
+				ctx, cancelled = r.opCtx(rt, 4)
+			}
 			var err error
-			r.watch("txn delete", func() { err = h.kv.Delete(r.ctx, k) })
-			r.log("txn delete %s -> %v", sxQ(k), err)
+			r.watch("txn delete", func() { err = h.kv.Delete(ctx, k) })
+			r.log("txn delete %s cancelled=%v -> %v", sxQ(k), cancelled, err)
 			if ro {
 				if !errors.Is(err, physical.ErrTransactionReadOnly) {
 					if _, may := r.st.c13Verdict("delete", k); !may || err == nil {
@@ -893,7 +976,10 @@ func (r *c13Run) transaction(rt *rapid.T) {
 				}
 				continue
 			}
-			if r.errOutcome("delete", k, err) {
+			if r.writeOutcome("delete", k, nil, cancelled, err) {
+				if err != nil {
+					failed = append(failed, k)
+				}
 				continue
 			}
 			if _, exists := r.m[k]; exists {
@@ -940,6 +1026,9 @@ func (r *c13Run) transaction(rt *rapid.T) {
 			var err error
 			r.watch("txn listpage", func() { got, err = h.kv.ListPage(r.ctx, p, after, limit) })
 			r.log("txn listpage %s after=%s limit=%d -> %s %v", sxQ(p), sxQ(after), limit, sxQL(got), err)
+			if r.afterRefused(p, after, err) {
+				continue
+			}
 			if r.errOutcome("list", p, err) {
 				continue
 			}
@@ -971,7 +1060,7 @@ func (r *c13Run) transaction(rt *rapid.T) {
 		var perr error
 		r.watch("put", func() { perr = r.st.top.Put(r.ctx, k, v) })
 		r.log("outside put during txn %s=%x -> %v", sxQ(k), v, perr)
-		if !r.errOutcome("put", k, perr) {
+		if !r.writeOutcome("put", k, v, false, perr) {
 			r.m[k] = v
 			r.touchedOutside(k)
 			outside = true
@@ -1002,6 +1091,22 @@ func (r *c13Run) transaction(rt *rapid.T) {
 			r.noteDeleted(k)
 		} else {
 			r.m[k] = append([]byte{}, w.val...)
+		}
+	}
+	// a write the transaction refused is not part of what was committed: the keys of refused writes hold what the
+	// accepted writes (of this transaction or earlier) left there
+	if len(failed) > 0 {
+		r.txnCommitAfterFailedWrite++
+		r.feats["txn-commit-after-refused-write"] = true
+	}
+	for _, k := range failed {
+		if _, may := r.st.c13Verdict("get", k); may {
+			continue
+		}
+		_, v, ok, gerr := r.st.top.Get(r.ctx, k)
+		want, exists := r.m[k]
+		if gerr != nil || ok != exists || (ok && !bytes.Equal(v, want)) {
+			r.viol("txn-commit-applies-refused-write", "a Put/Delete of %s inside the transaction returned an error, the transaction was committed; get %s now returns (%x, found=%v, err %v), the accepted writes left (%x, found=%v)", sxQ(k), sxQ(k), v, ok, gerr, want, exists)
 		}
 	}
 }
@@ -1130,11 +1235,14 @@ var c13OutsideKeys = []string{"v/w", "v/w0", "v/w-x", "v/x/a", "v/a", "v", "a", 
 func c13RunStack(t *testing.T, spec c13Spec, salt int) {
 	rule := "state machine (put/get/delete/list/list-page/scan+collect+count+HandleListPage helpers/clear/cache purge, ~30 steps) over generated key sets " +
 		"(nested, shared prefixes, key that is also a prefix, trailing-slash keys, unicode, invalid UTF-8/NUL where storable, 249/300-byte and bolt-limit lengths); " +
+		"writes refused at the call (cancelled context 1 in 8 outside / 1 in 4 inside a transaction that goes on and is committed or rolled back with a live context; value over max_value_size=12 on a quarter of the in-memory stacks) must change nothing; " +
 		"after in {\"\", existing entry and near misses, non-existing, \".\", \"..\", \"a/\", \"a/b\", \"x/../y\", seg+{/../,/./,//,/}+seg, NUL/high bytes}, limit in {<0,0,1,2,3,2^30}; " +
 		"oracle: sorted-map model, full scan of top and of the underlying store after every step; non-trivial = a listing was checked while a directory entry existed and after!=\"\", or while a key was also a prefix of another key"
 	rec := verifx.NewRecorder("C13", "kv-"+spec.name, rule)
 	defer rec.Flush()
 	ctx := context.Background()
+	dead, cancelDead := context.WithCancel(ctx)
+	cancelDead()
 	rapid.Check(t, func(rt *rapid.T) {
 		// every rapid.Check of a process starts from the same PRNG value; consuming a stack-specific number of draws
 		// first gives every stack its own cases
@@ -1150,12 +1258,17 @@ func c13RunStack(t *testing.T, spec c13Spec, salt int) {
 			dir = d
 			defer os.RemoveAll(d)
 		}
+		// configuration: some in-memory backends are built with a max_value_size (the barrier's own records do not fit it)
+		spec := spec
+		if (spec.base == "inmem" || spec.base == "inmem-notx") && !spec.barrier && rapid.IntRange(0, 3).Draw(rt, "maxValueSize") == 0 {
+			spec.maxVal = c13MaxValueSize
+		}
 		st, err := c13Build(spec, dir)
 		if err != nil {
 			rt.Fatalf("harness: building stack %s: %v", spec.name, err)
 		}
 		defer st.closeFn()
-		r := &c13Run{st: st, rec: rec, rt: rt, ctx: ctx, m: map[string][]byte{}, foreign: map[string]bool{}, outside: map[string][]byte{}, feats: map[string]bool{}}
+		r := &c13Run{st: st, rec: rec, rt: rt, ctx: ctx, dead: dead, m: map[string][]byte{}, foreign: map[string]bool{}, outside: map[string][]byte{}, feats: map[string]bool{}}
 		// what the stack itself wrote while it was built (barrier keyring)
 		pre, err := sxDump(ctx, sxPhys{st.raw})
 		if err != nil {
@@ -1216,6 +1329,8 @@ func c13RunStack(t *testing.T, spec c13Spec, salt int) {
 		}
 		rec.Class("txn-commit", r.txnCommits)
 		rec.Class("txn-rollback", r.txnRollbacks)
+		rec.Class("write-refused", r.failedWrites)
+		rec.Class("txn-commit-after-refused-write", r.txnCommitAfterFailedWrite)
 		rec.Class("txn-refused-after-outside-write", r.txnRefused)
 		rec.Class("txn-refused-after-outside-write-key-written-twice", r.txnRefusedDouble)
 		rec.Class("txn-delete-of-cached-key", r.txnDelCached)
